@@ -343,6 +343,12 @@ def rule_r6(ctx) -> List[R.Inst]:
     return insts
 
 
+def rule_dep(ctx):
+    """obligations inherited from shared code reached through the call graph (sa/props/deps.py)"""
+    from .deps import dep_insts
+    return dep_insts(ctx, "C09", __import__("sa.props.common", fromlist=["x"]).converter_entries(ctx.M) + ["reamber.osu.OsuMap.OsuMap.write", "reamber.quaver.QuaMap.QuaMap.write", "reamber.sm.SMMapSet.SMMapSet.write", "reamber.bms.BMSMap.BMSMap.write"], skip_groups=())
+
+
 SPECS = [
     RuleSpec("C09.R1", rule_r1, 16, "M0", "the 16 source->target converters exist, are exported, and their target has a writer"),
     RuleSpec("C09.R2", rule_r2, 13, "A1", "the target's key-count field is derived from the source's key count"),
@@ -350,6 +356,7 @@ SPECS = [
     RuleSpec("C09.R5", rule_r5, 200, "A1", "converter content: list mapping tables, declared targets, one target per source (C08.R1-R3 on the pipeline)"),
     RuleSpec("C09.R6", rule_r6, 4, "A10", "only fields the target writer can express are copied (BMS: 4/4 only)"),
     RuleSpec("C09.R4", rule_r4, 5, "A1", "StepMania file offset = first tempo point of the source (0 only where the reader pins it)"),
+    RuleSpec("C09.D", rule_dep, 1, "M0", "rules of the shared code (timing engine, list classes, stacker) that the operations of this property reach"),
 ]
 
 META = dict(
